@@ -23,8 +23,12 @@ def main():
     cov.start()
     sys.path.insert(0, REPO)
     import bashlex, canon
+    slow = 0
     for entry, opts, s in reqs:
-        canon.run(bashlex, entry, s, timeout=5, **(opts if entry != 'split' else {}))
+        out = canon.run(bashlex, entry, s, timeout=2, **(opts if entry != 'split' else {}))
+        if out.startswith('EXN FUEL'):
+            slow += 1
+            if slow >= 5: break      # a change that hangs must not hang the measurement
     cov.stop()
     res = {}
     tot = cov_tot = 0
